@@ -14,6 +14,7 @@ where
     let next = AtomicUsize::new(0);
     let total = Mutex::new(Ctx::new());
     let threads = threads.max(1).min(n.max(1));
+    let trace = crate::report::tracing();
     std::thread::scope(|s| {
         for _ in 0..threads {
             s.spawn(|| {
@@ -22,6 +23,9 @@ where
                     let i = next.fetch_add(1, Ordering::Relaxed);
                     if i >= n {
                         break;
+                    }
+                    if trace {
+                        crate::report::trace_state(|| serde_json::json!({"shard": i}));
                     }
                     let r = std::panic::catch_unwind(std::panic::AssertUnwindSafe(|| f(i, &mut ctx)));
                     if let Err(e) = r {
@@ -66,6 +70,10 @@ pub trait TreeSys: Sync {
     fn k(&self) -> usize;
     fn max_len(&self) -> usize;
     fn visit(&self, word: &[u8], parent: Option<&Self::Memo>, ctx: &mut Ctx) -> Self::Memo;
+    /// family name recorded in trace mode (used to replay an abort)
+    fn name(&self) -> String {
+        String::new()
+    }
 }
 
 fn dfs<S: TreeSys>(sys: &S, word: &mut Vec<u8>, memo: &S::Memo, ctx: &mut Ctx) {
@@ -77,6 +85,9 @@ fn dfs<S: TreeSys>(sys: &S, word: &mut Vec<u8>, memo: &S::Memo, ctx: &mut Ctx) {
         word.push(s as u8);
         ctx.transitions += 1;
         ctx.states += 1;
+        if crate::report::tracing() {
+            crate::report::trace_state(|| serde_json::json!({"family": sys.name(), "word": word}));
+        }
         let m = sys.visit(word, Some(memo), ctx);
         dfs(sys, word, &m, ctx);
         word.pop();
@@ -90,6 +101,9 @@ pub fn explore_tree<S: TreeSys>(sys: &S, threads: usize) -> Ctx {
     let max = sys.max_len();
     let mut pre = Ctx::new();
     pre.states += 1;
+    if crate::report::tracing() {
+        crate::report::trace_state(|| serde_json::json!({"family": sys.name(), "word": []}));
+    }
     let root = sys.visit(&[], None, &mut pre);
     if max == 0 || k == 0 {
         pre.traces += 1;
@@ -100,6 +114,9 @@ pub fn explore_tree<S: TreeSys>(sys: &S, threads: usize) -> Ctx {
     for a in 0..k {
         pre.states += 1;
         pre.transitions += 1;
+        if crate::report::tracing() {
+            crate::report::trace_state(|| serde_json::json!({"family": sys.name(), "word": [a]}));
+        }
         lvl1.push(sys.visit(&[a as u8], Some(&root), &mut pre));
     }
     if max == 1 {
@@ -112,6 +129,9 @@ pub fn explore_tree<S: TreeSys>(sys: &S, threads: usize) -> Ctx {
         let mut word = vec![a as u8, b as u8];
         ctx.states += 1;
         ctx.transitions += 1;
+        if crate::report::tracing() {
+            crate::report::trace_state(|| serde_json::json!({"family": sys.name(), "word": word}));
+        }
         let m = sys.visit(&word, Some(&lvl1[a]), ctx);
         dfs(sys, &mut word, &m, ctx);
     });
